@@ -100,4 +100,8 @@ pub struct KChild {
     /// offset once at start and formats times with it
     #[serde(default)]
     pub tz: Option<String>,
+    /// a long outage: before connect number `.0` of the list is answered, this many attempts are
+    /// refused (tens of thousands of attempts without tens of thousands of list entries)
+    #[serde(default)]
+    pub outage: Option<(usize, u32)>,
 }
